@@ -488,7 +488,68 @@ def check(run):
         for i in (bads or [])[:3]:
             run.violation({"what": "the set-operation loop nests differently from its model (bounded-edge exception no longer justified)",
                            "unchecked": "correspondence setops_depth", "case": sterms[i]}, no_input=True)
+    # ---- 7. translator validation: caller/callee pairs observed in backtraces taken at the
+    # dialect hooks (wrapper dialect) must be edges of the extracted graph (by function name)
+    try:
+        probe_validation(run, bindir, g, ts, 1500 if thorough else 400)
+    except Exception as e:  # the validation is evidence, its failure is a machinery failure
+        run.violation({"what": "translator validation could not run", "unchecked": "backtrace probe", "tool_output": repr(e)[-1500:]}, no_input=True)
     log(f"[c03] done in {time.time()-t_start:.1f}s")
+
+
+def probe_validation(run, bindir, g, ts, ncorpus):
+    import re
+    from corpus import corpus
+    cs = list(corpus())
+    run.rng.shuffle(cs)
+    cases = [{"sql": e["sql"], "dialect": e["dialects"][0]} for e in cs[:ncorpus]]
+    for t in ts:
+        cases.append({"sql": t["example"], "dialect": t["dialects"][0]})
+        cases.append({"sql": t["sibling_example"], "dialect": t["dialects"][0]})
+    p = subprocess.run([os.path.join(bindir, "c03_nest"), "probe"], input="".join(json.dumps(c) + "\n" for c in cases),
+                       stdout=subprocess.PIPE, stderr=subprocess.PIPE, text=True, preexec_fn=_child_limits, timeout=900)
+    if p.returncode != 0:
+        raise RuntimeError("probe exited %s: %s" % (p.returncode, p.stderr[-300:]))
+    pairs = json.loads(p.stderr.strip().splitlines()[-1])
+
+    def base(q):
+        q = q.split("@")[0]
+        return [x for x in q.split("::") if not x.startswith("{")][-1]
+
+    def sym(x):
+        x = re.sub(r"::h[0-9a-f]{16}$", "", x)
+        for _ in range(3):
+            x = re.sub(r"<[^<>]*>", "", x)
+        parts = [y for y in x.split("::") if y and not y.startswith("{{")]
+        return parts[-1] if parts else x
+    E, adj = set(), {}
+    for e in g["edges"]:
+        a, b = base(g["nodes"][e["from"]]["q"]), base(g["nodes"][e["to"]]["q"])
+        E.add((a, b)); adj.setdefault(a, set()).add(b)
+    names = {base(n["q"]) for n in g["nodes"]}
+    seen, direct, indirect, missing = set(), 0, 0, []
+    for a, b in pairs:
+        x, y = sym(a), sym(b)
+        if (x, y) in seen:
+            continue
+        seen.add((x, y))
+        if x == y or (x, y) in E:
+            direct += 1
+            continue
+        fr, ok = {x}, False
+        for _ in range(2):  # a frame lost to inlining / tail call
+            fr = {z for w in fr for z in adj.get(w, ())}
+            ok = ok or y in fr
+        if ok and x in names and y in names:
+            indirect += 1
+        else:
+            missing.append([a, b])
+    run.notes["translator_validation"] = {"parses": len(cases), "distinct_caller_callee_pairs": len(seen), "direct_edges": direct,
+                                          "explained_by_a_2_step_path": indirect, "missing": missing[:10]}
+    run.add_eval(len(cases), len(seen))
+    for m in missing[:3]:
+        run.violation({"what": "a caller/callee pair observed in a backtrace is not an edge of the extracted call graph (translator unsound here)",
+                       "unchecked": "call-graph extraction (backtrace validation)", "pair": m}, no_input=True)
 
 
 def replay(path):
